@@ -23,8 +23,10 @@ OBLIGATIONS = [
      "statement": "SPSC, every interleaving with each atomic and each slot access one step, stale counter reads allowed: received ++ in-flight = accepted, in-flight <= C, results = ghost logs"},
     {"id": "C10_R2_refusals", "theorem": "Iora.C10.R2_refusals_genuine", "kind": "proved",
      "statement": "a full/empty answer decided on a fresh counter read is genuine (refusals are conservative; partial batches are not linearizable to an atomic min(count, room) - counterexample in the docstring)"},
+    {"id": "C10_R2_returned", "theorem": "Iora.C10.R2_returned_refusals_genuine", "kind": "proved",
+     "statement": "a tryPush/tryPop call that RETURNS false after reading the latest counter saw a full/empty ring"},
     {"id": "C10_orders", "theorem": "Iora.C10.C10_orders", "kind": "proved",
-     "statement": "OrdersOK Gen.Orders.ring: every cross-thread counter load is acquire, every counter store in a producer/consumer method is release, one writer per counter (decide over the extracted table)"},
+     "statement": "OrdersOK Gen.Orders.ring: memory orders as required AND every method is exactly `load own counter, load other counter, slot access(es), one store` in source order, no extra/reordered rows (decide over the extracted event table incl. _buffer accesses)"},
     {"id": "C10_R3", "theorem": "Iora.C10.R3_ring_drf", "kind": "proved",
      "statement": "data-race freedom of both ring classes in the release/acquire view model with the extracted orders, every capacity, every pair of programs, every schedule"},
     {"id": "C10_R3_generic", "theorem": "Iora.C10.R3_drf_of_orders", "kind": "proved",
@@ -41,6 +43,14 @@ OBLIGATIONS = [
     {"id": "C10_Q3b", "theorem": "Iora.C10.Q3_closed_refuses", "kind": "proved", "statement": "once closed: closed for ever and no further push"},
     {"id": "C10_Q3c", "theorem": "Iora.C10.Q3_retrievable", "kind": "proved",
      "statement": "a take that gets the mutex on a non-empty queue takes the oldest item without waiting, closed or not"},
+    {"id": "C10_Q3d", "theorem": "Iora.C10.Q3_drain_after_close", "kind": "proved",
+     "statement": "from a closed state on, under every schedule: items taken afterwards are exactly a prefix of the queue content at that moment, in order; the rest stays queued"},
+    {"id": "C10_Q3e", "theorem": "Iora.C10.Q3_closed_empty_returns_false", "kind": "proved",
+     "statement": "a take on a closed empty queue returns false without waiting"},
+    {"id": "C10_Q4_every_state", "theorem": "Iora.C10.Q4_wakeup_pending_in_every_state", "kind": "proved",
+     "statement": "EVERY reachable state: a sleeper whose condition holds has a wake-up in the pipeline (pending notifier / woken waiter / closer before notify_all); credit invariant #items <= #pipeline wake-ups (resp. free slots) exported"},
+    {"id": "C10_members", "theorem": "Iora.C10.members_conform", "kind": "proved",
+     "statement": "the data members of BlockingQueue are the modelled ones (translator also asserts `const std::size_t _maxSize`, never assigned, and no unknown member function)"},
     {"id": "C10_Q4", "theorem": "Iora.C10.Q4_no_lost_wakeup", "kind": "proved",
      "statement": "if no thread can run, every sleeper's wait condition is false (no lost wake-up), for every schedule incl. time-outs and spurious wake-ups"},
     {"id": "C10_Q4_repaired", "theorem": "Iora.C10.Q4_repaired", "kind": "proved", "statement": "no schedule of the repaired class ends in a lost wake-up"},
@@ -190,6 +200,17 @@ def gen_ring_case(rng, idx, wrap64=False):
         else:
             ops.append("ring size")
     return {"cat": "ring-wrap64" if wrap64 else ("ring-dyn" if dyn else "ring-static"), "ops": ops, "cap": cap, "base": base}
+
+
+SPSC_OPS = ("new", "push", "pushm", "pop", "peek", "pushb", "popb")
+
+
+def gen_spsc_case(rng, idx):
+    """Same real rings, but the model side is the one-call-at-a-time execution of the SPSC interleaving model (Model/RingSpsc.lean,
+    fresh reads): ties its count formulas, `% C` slot addressing and data movement to the code."""
+    c = gen_ring_case(rng, idx)
+    ops = [o for o in c["ops"] if o.split()[1] in SPSC_OPS]
+    return {"cat": "ring-spsc", "ops": ["spsc" + o[4:] for o in ops], "cap": c["cap"], "base": 0}
 
 
 def ring_monitor(c, impl):
@@ -607,6 +628,9 @@ def run(ctx: Ctx):
         r1 = rng.fork("ring")
         for i in range(2500 * scale):
             seq_cases.append(gen_ring_case(r1, i, wrap64=(i % 25 == 24)))
+        r1b = rng.fork("spsc")
+        for i in range(600 * scale):
+            seq_cases.append(gen_spsc_case(r1b, i))
         r2 = rng.fork("bqseq")
         for i in range(1200 * scale):
             seq_cases.append(gen_bq_case(r2, i))
@@ -626,6 +650,8 @@ def run(ctx: Ctx):
         "pthread mutex/condvar semantics as modelled in Model/Monitor.lean (atomic release-and-sleep, notify wakes only current sleepers, spurious and timed wake-ups)",
         "ring counters do not overflow 2^64 (needs 2^64 pushes; tryPop's raw `tail >= head` test is not overflow-safe - recorded as an observation; the UInt64 model reproduces the code's behaviour there and is lockstep-checked in category ring-wrap64)",
         "destruction: ~BlockingQueue() is close(); C++ lifetime rules require that no thread is still inside a member function",
+        "element type: every harness instantiates T = uint64_t (trivially copyable; copy/move overloads are exercised but indistinguishable); throwing or non-trivial T (exception safety of push_back/assignment) is outside the check",
+        "blocking-queue race-freedom = every access to _queue and every write of _closed under _mutex (extracted skeleton, decide) + `const _maxSize` + no unknown member function (translator) + TSan MPMC soak of the real class as the search; it is not a theorem about the C++ memory model",
     ]
     return ctx.finish(level="proof", rule="a case = one self-contained op list on a fresh ring / blocking queue (lockstep with the model), or one multi-threaded program run under one "
                       "DetSched schedule (random schedules are replayed step by step through the Lean monitor model; enumerated schedules of the small `explore` "
@@ -703,6 +729,9 @@ def run_tsan(ctx, ms, dist):
         rc, out, err = p.returncode, p.stdout.decode("utf-8", "replace"), p.stderr.decode("utf-8", "replace")
     except Exception as ex:
         raise RuntimeError("tsan soak could not run: %s" % ex)
+    # machinery first: a sanitizer that could not start, or a harness that printed nothing, is not a verdict about the property
+    if "FATAL: ThreadSanitizer" in err or not out.strip():
+        raise RuntimeError("tsan soak did not run properly rc=%s: %s" % (rc, err[-400:]))
     items = 0
     cmd = "g++ -std=c++17 -O1 -g -fsanitize=thread -I$VERIF_REPO/include harness/c10_ring_tsan.cpp -o t -lpthread && TSAN_OPTIONS=exitcode=66 ./t %d %d" % (ms, seed)
     for l in out.splitlines():
@@ -712,24 +741,26 @@ def run_tsan(ctx, ms, dist):
         dist["tsan:" + m.group(1)] += 1
         items += int(m.group(2))
         ctx.count_case("tsan:%s:%d:%d" % (m.group(1), seed, ms), nontrivial=int(m.group(2)) > 0)
+        tag = "Q1" if m.group(1).startswith("bq-") else "R2"
         if m.group(3) != "ok":
-            ctx.violation("property", "R2: SPSC run of the real ring is not FIFO/lossless: %s" % l, {"ops": [cmd], "observed": out.splitlines()}, found_input=True)
+            ctx.violation("property", "%s: concurrent run of the real %s is not FIFO/lossless: %s" % (tag, "BlockingQueue" if tag == "Q1" else "ring", l),
+                          {"ops": [cmd], "observed": out.splitlines()}, found_input=True)
         if int(m.group(4)) > int(m.group(5)):
-            ctx.violation("property", "R2: size() sampled above capacity in an SPSC run: %s" % l, {"ops": [cmd], "observed": out.splitlines()}, found_input=True)
+            ctx.violation("property", "%s: size() sampled above capacity in a concurrent run: %s" % ("Q2" if tag == "Q1" else "R2", l),
+                          {"ops": [cmd], "observed": out.splitlines()}, found_input=True)
     ctx.extra["tsan_items_transferred"] = items
     ctx.extra["tsan_ms_per_configuration"] = ms
     n = err.count("WARNING: ThreadSanitizer")
     ctx.extra["tsan_reports"] = n
     if n:
         first = err[err.find("WARNING: ThreadSanitizer"):][:2500]
-        where = re.findall(r"#0 (iora::core::[^\n]*?)\s/\S*ring_buffer\.hpp:(\d+)", first)
-        ctx.violation("property", "R3: ThreadSanitizer reports a data race inside the SPSC contract of the real ring (%s)"
-                      % "; ".join("%s l.%s" % w for w in where[:2]),
+        where = [(a, "%s.hpp:%s" % (f, n)) for a, f, n in re.findall(r"#0 (iora::core::[^\n]*?)\s/\S*(ring_buffer|blocking_queue)\.hpp:(\d+)", first)]
+        ctx.violation("property", "R3/Q: ThreadSanitizer reports a data race inside the stated contract (SPSC ring / MPMC blocking queue): %s"
+                      % "; ".join("%s %s" % w for w in where[:2]),
                       {"ops": [cmd], "tsan_report": first, "reports": n, "observed": out.splitlines()}, found_input=True)
-    elif rc not in (0,):
-        ctx.violation("property", "R2: the SPSC soak of the real ring crashed rc=%d: %s" % (rc, err[-300:]), {"ops": [cmd]}, found_input=True)
-    if not out.strip():
-        raise RuntimeError("tsan soak produced no output rc=%s %s" % (rc, err[-300:]))
+    elif rc != 0:
+        ctx.violation("property", "R2/Q: the concurrent soak of the real classes crashed after producing output, rc=%d: %s" % (rc, err[-300:]),
+                      {"ops": [cmd], "observed": out.splitlines()}, found_input=True)
 
 
 def run_sequential(ctx, hb, cases, dist):
@@ -831,7 +862,8 @@ def run_sched(ctx, hb, cases, dist):
             ctx.count_case(sched_line(c) + "|" + ",".join(map(str, res["choices"])), nontrivial=switches >= 2)
         else:
             ctx.count_case(sched_line(c), nontrivial=False)
-        ctx.cov["traces_validated_against_impl"] += 1
+        if res is not None and res["status"] != "diverged":
+            ctx.cov["traces_validated_against_impl"] += 1
         if len(ctx.cov["samples"]) < 6 and ctx.rng.chance(1, 300) and res:
             ctx.sample({"cat": "bq-sched", "line": sched_line(c), "events": res["events"][:30], "rets": res["rets"]})
         is_corpus = "corpus_file" in c
